@@ -99,6 +99,13 @@ theorem energy_mulImg_unit {nr nc : ℕ} {a P : Img ℝ} (ha : Rect nr nc a)
   intro i _ j _
   simp only [toC_mul]; ring
 
+theorem energy_mulImg_unit_right {nr nc : ℕ} {a P : Img ℝ} (ha : Rect nr nc a)
+    (hP : Rect nr nc P) (hu : UnitModulus P) : energy (mulImg a P) = energy a := by
+  obtain ⟨f, rfl⟩ := ha.cx_build
+  obtain ⟨g, rfl⟩ := hP.cx_build
+  rw [mulImg_build]
+  exact energy_mul_unit (nr := nr) (nc := nc) f g (unitModulus_build.1 hu)
+
 theorem propagate_propagate {nr nc : ℕ} (hr : 0 < nr) (hc : 0 < nc) {a P Q : Img ℝ} (ha : Rect nr nc a)
     (hP : Rect nr nc P) (hQ : Rect nr nc Q) :
     propagate (propagate a P) Q = propagate a (mulImg P Q) := by
